@@ -102,6 +102,7 @@ func runC14(c *Ctx) {
 	if c.Thorough() {
 		n = 500
 	}
+	runDialFailsWhileAnotherDialerRegisters(c)
 	for i := 0; i < n; i++ {
 		runDialScenario(c, i)
 	}
